@@ -454,6 +454,29 @@ Proof.
   change (adj (equal c xe) (x :: y :: t')) with (equal c xe x y || adj (equal c xe) (y :: t')).
   change (adjacent_dup c xe (x :: y :: t')) with (equal c xe x y || adjacent_dup c xe (y :: t')). now rewrite IH.
 Qed.
+Lemma existsb_ext' {A} (f g : A -> bool) l : (forall a, f a = g a) -> existsb f l = existsb g l.
+Proof. intros H. induction l as [|a t IH]; [reflexivity|]. cbn [existsb]. now rewrite H, IH. Qed.
+Lemma existsb_map' {A B} (f : B -> bool) (g : A -> B) l : existsb f (map g l) = existsb (fun a => f (g a)) l.
+Proof. induction l as [|a t IH]; [reflexivity|]. cbn [map existsb]. now rewrite IH. Qed.
+
+(* the scan with the loop parameters GENERATED from uniqueness.c (first index, bound, the two subscripts) is the scan of
+   all adjacent pairs: a change of any of the four numbers in the source breaks this obligation *)
+Lemma window_is_adjacent l : sorted_scan c xe l = adjacent_dup c xe l.
+Proof.
+  unfold sorted_scan, window_dup. change SORTED_SCAN_FIRST with 0. change SORTED_SCAN_BOUND_SUB with 1.
+  change SORTED_SCAN_LEFT with 0. change SORTED_SCAN_RIGHT with 1.
+  replace (Z.to_nat (Z.of_nat (length l) - 1 - 0)) with (Nat.pred (length l)) by lia.
+  assert (Hf : forall k, (let i := 0 + Z.of_nat k in
+                          match nth_error l (Z.to_nat (i + 0)), nth_error l (Z.to_nat (i + 1)) with
+                          | Some x, Some y => equal c xe x y | _, _ => false end) =
+                         match nth_error l k, nth_error l (S k) with Some x, Some y => equal c xe x y | _, _ => false end).
+  { intros k. cbv zeta. replace (Z.to_nat (0 + Z.of_nat k + 0)) with k by lia. replace (Z.to_nat (0 + Z.of_nat k + 1)) with (S k) by lia. reflexivity. }
+  rewrite (existsb_ext' _ _ _ Hf). clear Hf.
+  induction l as [|x t IH]; [reflexivity|]. destruct t as [|y t']; [reflexivity|].
+  change (adjacent_dup c xe (x :: y :: t')) with (equal c xe x y || adjacent_dup c xe (y :: t')). rewrite <- IH.
+  cbn [length Nat.pred]. change (seq 0 (S (length t'))) with (0%nat :: seq 1 (length t')). cbn [existsb nth_error]. f_equal.
+  rewrite <- seq_shift, existsb_map'. reflexivity.
+Qed.
 Lemma lin_is_dup_linear l : lin (equal c xe) l = dup_linear c xe l.
 Proof. induction l as [|x t IH]; [reflexivity|]. cbn [lin dup_linear]. now rewrite IH. Qed.
 
@@ -463,7 +486,7 @@ Theorem dup_sorted_correct (sort : list node -> list node) l :
   dup_sorted c xe sort l = dup_linear c xe l.
 Proof.
   intros HF HP HS. unfold dup_sorted. destruct (forallb sort_comparable l); [|reflexivity].
-  rewrite <- adj_is_adjacent_dup, <- lin_is_dup_linear.
+  rewrite window_is_adjacent. rewrite <- adj_is_adjacent_dup, <- lin_is_dup_linear.
   apply (sorted_strategy_correct (equal c xe) (compare_nodes c) sdom); try assumption.
   - apply cmp_eq_model.
   - apply (keyed_trans (compare_nodes c) key sdom cmp_key).
